@@ -254,6 +254,33 @@ def run(ctx):
             det = 'parse in helper %s on all its paths: %s; helper called on every path to Ok: %s; failure component %s; turned into Err by write_module: %s' % (short(H.id), c1h, c1, comp, bool(flag))
             break
     ctx.ob(['C13', 'C12'], 'R-DOM', 'C13-D1|parse-gate', okg, 'write_module returns Ok only if syn::parse_file accepted the complete text that is written: %s' % det, where)
+    # what is printed is the parsed file as it was parsed: nothing edits the syntax tree between parse_file and unparse
+    # (the user's prologue and epilogue are part of that tree; an edit "tidying" generated items also reaches their text)
+    un = []
+    for g_ in [x for x in P.fns.values() if x.id.startswith('backends::') and not x.raw.get('derived')]:
+        for c in g_.calls(lambda r: (r['path'] or '').endswith('prettyplease::unparse')):
+            a0 = c['term']['args'][0]
+            e0 = strip(g_.expr_of_operand(a0))
+            roots = set()
+            for x in walk(expand(g_, e0)):
+                if isinstance(x, tuple) and x and x[0] == 'call' and x[1] == 'syn::parse_file':
+                    roots.add('parse_file')
+            locs_ = {x[1] for x in walk(e0) if isinstance(x, tuple) and x and x[0] == 'var' and isinstance(x[1], int) and 'syn::File' in g_.local_ty(x[1])}
+            # the locals that hold the file: the named binding and the temporaries it was moved through
+            edits = []
+            for bi in g_.normal_blocks():
+                for st in g_.raw['blocks'][bi]['stmts']:
+                    if st['k'] != 'Assign':
+                        continue
+                    rv = st['rv']
+                    if rv['k'] in ('Ref', 'RawPtr') and rv.get('mutbl') and 'syn::File' in g_.local_ty(rv['place']['local']) and not g_.local_ty(rv['place']['local']).startswith('&'):
+                        edits.append(loc(st['span']))
+                    if st['place']['proj'] and 'syn::File' in g_.local_ty(st['place']['local']) and any(p_.get('k') == 'Field' for p_ in st['place']['proj']) and \
+                            not any(p_.get('k') == 'Downcast' for p_ in st['place']['proj']):
+                        edits.append(loc(st['span']))
+            un.append((bool(roots), not edits, short(g_.id), edits[:2]))
+    ctx.ob(['C14', 'C13'], 'R-EXPR', 'C14-D5|printed-tree-is-the-parsed-tree', bool(un) and all(a_ and b_ for a_, b_, _, _ in un) if un else True,
+           'prettyplease::unparse receives the syn::File that parse_file returned, not edited in between (%d site(s): %s)' % (len(un), [(n_, e_) for _, _, n_, e_ in un]), where, nontrivial=bool(un))
     # the text parsed is the text assembled
     okt = False
     if not pf and helper_pf and fw:
@@ -381,7 +408,7 @@ def run(ctx):
                             defined_only = is_call(strip(expand(pf_, a_)), 'ItemDefinition::category') and lit_[0] == 'agg' and lit_[1].endswith('ItemCategory::Defined')
                 ctx.items_defined_only = getattr(ctx, 'items_defined_only', False) or defined_only
                 okL = okL and not any(re.search(r'Iterator::(skip|take|filter|step_by|rev)$', c_[3]) for c_ in calls_in(e) if 'write_module' in wm.id and not (defined_only and c_ is flt[0]))
-            ctx.ob(['C14'], 'R-ITER', 'C14-D5|all-%ss-written' % k, okL, 'every %s of the module is appended to the buffer (one write per iteration, unfiltered)' % ('definition' if k == 'item' else 'extern value'), loc(c['span']))
+            ctx.ob(['C14', 'C15'] if k != 'item' else ['C14'], 'R-ITER', 'C14-D5|all-%ss-written' % k, okL, 'every %s of the module is appended to the buffer (one write per iteration, unfiltered)' % ('definition' if k == 'item' else 'extern value'), loc(c['span']))
     # prologue / epilogue source: backends.get("rust"), flattened in order
     okb = False
     getc = [c for c in wm.calls(lambda r: r['path'] and re.search(MAPM('get'), r['path']))]
